@@ -799,6 +799,66 @@ Proof.
   split. apply (HK false). apply (HK true).
 Qed.
 
+(* a thread whose program contains Subscribe ends with both shards snapshotted *)
+Fixpoint count_walk (l : list mstep) : N :=
+  match l with
+  | [] => 0
+  | MWalk :: t => 1 + count_walk t
+  | _ :: t => count_walk t
+  end.
+
+Lemma count_walk_app a b : count_walk (a ++ b) = count_walk a + count_walk b.
+Proof. induction a as [|m t IH]; cbn [app count_walk]; auto. destruct m; rewrite ?IH; lia. Qed.
+
+Lemma count_walk_flat ops : In Subscribe ops -> 2 <= count_walk (flat_map expand ops).
+Proof.
+  induction ops as [|o t IH]; cbn [In flat_map]; try tauto.
+  intros [->|H]; rewrite count_walk_app.
+  - cbn [expand count_walk]. lia.
+  - specialize (IH H). lia.
+Qed.
+
+Lemma effect_walk c g t m g' : effect c g t m g' ->
+  g_walk g' = match m with MWalk => g_walk g + 1 | _ => g_walk g end.
+Proof. intro H. destruct m; cbn [effect] in H; intuition. Qed.
+
+Lemma walk_progress c s i j : Inv s ->
+  g_walk (s_g s) + count_walk (steps (s_thr s j)) <=
+  g_walk (s_g (sys_step c Fixed s i)) + count_walk (steps (s_thr (sys_step c Fixed s i) j)).
+Proof.
+  intro HI. unfold sys_step.
+  destruct (next_step (s_thr s i)) as [[m t1]|] eqn:EN; try lia.
+  pose proof (exec_steps c (s_g s) t1 m) as HT.
+  pose proof (effect_walk c _ _ _ _ (exec_effect c (s_g s) t1 m (i_dom s HI))) as HW.
+  destruct (exec c Fixed (s_g s) t1 m) as [g' t2] eqn:E. cbn [s_g s_thr fst snd] in *.
+  unfold upd_thr. destruct (Nat.eqb j i) eqn:EJ.
+  - apply Nat.eqb_eq in EJ. subst j.
+    destruct (next_step_some _ _ _ (i_cur s HI i) EN) as [HS _]. rewrite HS, HT, HW.
+    destruct m; cbn [count_walk]; lia.
+  - rewrite HW. destruct m; lia.
+Qed.
+
+Lemma run_walk c sched : forall s j, Inv s ->
+  g_walk (s_g s) + count_walk (steps (s_thr s j)) <=
+  g_walk (s_g (run_sched c Fixed s sched)) + count_walk (steps (s_thr (run_sched c Fixed s sched) j)).
+Proof.
+  induction sched as [|i t IH]; intros s j HI; cbn [run_sched fold_left]; try lia.
+  pose proof (walk_progress c s i j HI) as H1.
+  pose proof (IH (sys_step c Fixed s i) j (step_inv c s i HI)) as H2. unfold run_sched in *. lia.
+Qed.
+
+Lemma subscribed_walked c progs sched i :
+  wf_progs progs -> In Subscribe (nth i progs []) ->
+  all_done (run_sched c Fixed (init progs) sched) ->
+  2 <= g_walk (s_g (run_sched c Fixed (init progs) sched)).
+Proof.
+  intros HW HS HD.
+  pose proof (run_walk c sched (init progs) i (Inv_init progs HW)) as H.
+  rewrite (next_step_none _ (HD i)) in H. cbn [count_walk] in H.
+  unfold steps in H at 1. cbn [init s_thr s_g t_cur t_ops app glob0 g_walk] in H.
+  pose proof (count_walk_flat _ HS). lia.
+Qed.
+
 (* the fold is determined by the last event that concerns the key *)
 Lemma apply_concerns b m e k :
   apply_b b m e k = match concerns b k e with Some x => x | None => m k end.
@@ -843,6 +903,34 @@ Proof.
   - intro Hx. rewrite Hx in H3. auto.
   - intros x Hx. rewrite Hx in H4. auto.
   - intro Hx. rewrite Hx in H4. auto.
+Qed.
+
+(* the statements with "some thread subscribes" instead of "the snapshot is complete" *)
+Theorem C18_subscriber_fold_eq_rib_sub :
+  forall (c : cfg) (progs : list (list op)) (sched : list nat) (i : nat),
+    wf_progs progs -> In Subscribe (nth i progs []) ->
+    let s := run_sched c Fixed (init progs) sched in
+    all_done s ->
+    forall k, fold_pre (g_evs (s_g s)) k = rib_pre (s_g s) k /\
+              fold_post (g_evs (s_g s)) k = rib_post (s_g s) k.
+Proof.
+  intros c progs sched i HW HS s HD. apply C18_subscriber_fold_eq_rib; auto.
+  eapply subscribed_walked; eauto.
+Qed.
+
+Theorem C18_last_event_is_current_sub :
+  forall (c : cfg) (progs : list (list op)) (sched : list nat) (i : nat),
+    wf_progs progs -> In Subscribe (nth i progs []) ->
+    let s := run_sched c Fixed (init progs) sched in
+    all_done s ->
+    forall k,
+      (forall x, last_touch false k (g_evs (s_g s)) = Some x -> rib_pre (s_g s) k = x) /\
+      (last_touch false k (g_evs (s_g s)) = None -> rib_pre (s_g s) k = None) /\
+      (forall x, last_touch true k (g_evs (s_g s)) = Some x -> rib_post (s_g s) k = x) /\
+      (last_touch true k (g_evs (s_g s)) = None -> rib_post (s_g s) k = None).
+Proof.
+  intros c progs sched i HW HS s HD. apply C18_last_event_is_current; auto.
+  eapply subscribed_walked; eauto.
 Qed.
 
 (* track_peer_up / track_peer_down: a PeerDown is forwarded only for a peer whose
